@@ -965,6 +965,6 @@ func Run(c *fw.Ctx) {
 		"column names are distinct from each other and from the fixed column set; the delimiter is the configured CSVDelimiter",
 		"a header-less CSV export is compared with the export of the same configuration with header (same records minus the first)",
 		"Search is compared on ASCII keywords with ASCII case folding; texts contain no character whose lower case is ASCII")
-	n := c.N(1200, 60000)
+	n := c.N(1200, 120000)
 	c.Parallel(n, func(i int) { runCase(c, i) })
 }
